@@ -14,7 +14,7 @@
 From Coq Require Import ZArith List Bool.
 Import ListNotations.
 From Urwid Require Import PyBase Canvas CanvasGrid CanvasFacts CanvasAbs CanvasVert CanvasHoriz CanvasJoin CanvasSides
-     CanvasProg CanvasProgH CanvasSim.
+     CanvasProg CanvasProgH CanvasSim CanvasDelta CanvasDelta2 CanvasDelta3.
 Open Scope Z_scope.
 
 (* ------------------------------------------------------------------------------------------
@@ -162,17 +162,33 @@ Proof. intros leaves st gst i gst' R G. exact (step_sim leaves st gst i gst' R e
 Print Assumptions every_operation_simulates.
 
 (* ------------------------------------------------------------------------------------------
-   The delta clause - stated at full strength, NOT proved; decided by the correspondence
-   (the model of content_delta / shards_delta / shard_cviews_delta is compared with the
-   implementation item by item) and by the oracle (the delta applied to the old rows must
-   reproduce the new rows).
+   The delta clause.  For two well-formed canvases of the same size, the row-by-row
+   difference computed by content_delta (shards_delta / shard_cviews_delta / the shard
+   machinery over cviews flagged "unchanged"), applied to the rows of the old canvas,
+   reproduces the rows of the new canvas exactly.  [ids_ok]: the integer ids that model
+   Python object identity ("cv[5] is other_cv[5]") identify canvases: two cviews with the
+   same id view the same leaf canvas.
    ------------------------------------------------------------------------------------------ *)
-Definition delta_apply_full : Prop :=
+Theorem delta_applied_to_old_rows_gives_new_rows :
   forall new old rows_new rows_old d,
     WF new -> WF old -> shards_cols new = shards_cols old -> shards_rows new = shards_rows old ->
+    ids_ok new old ->
     content new = Ok rows_new -> content old = Ok rows_old ->
     delta_from (shards_delta new old) [] = Ok d ->
     apply_delta rows_old d = rows_new.
+Proof. exact delta_apply. Qed.
+Print Assumptions delta_applied_to_old_rows_gives_new_rows.
+
+(* content_delta never raises on such a pair *)
+Theorem delta_defined :
+  forall new old, WF new -> exists d, delta_from (shards_delta new old) [] = Ok d.
+Proof.
+  intros new old W. destruct (WF_elim _ W) as (Hw & _).
+  assert (wf_fromb (shards_cols new) (map projS (shards_delta new old)) (map projT []) = true) as H.
+  { rewrite shards_delta_proj. unfold WF, wfb in W. apply andb_prop in W as [_ W]. exact W. }
+  destruct (dwf_abs _ Hw _ [] [] ltac:(constructor) (sl_equiv_refl _) H) as (_ & d & E & _). eauto.
+Qed.
+Print Assumptions delta_defined.
 
 (* ------------------------------------------------------------------------------------------
    Non-vacuity: concrete leaves with double-width characters, a program using every
@@ -214,3 +230,15 @@ Example ex_cut :
   trim_cells (ex_wide 1 19990 ++ [Cell KN 0 0 [97]] ++ ex_wide 2 30028) 1 4
   = [Cell KN 1 0 [32]; Cell KN 0 0 [97]; Cell KN 2 0 [32]].
 Proof. vm_compute. reflexivity. Qed.
+
+(* a delta with unchanged, changed and moved parts: old = leaf1 over leaf2, new = leaf1 over leaf2 remapped *)
+Definition ex_old : shards := [(2, [CV 0 0 5 2 None ex_leaf1]); (2, [CV 0 0 5 2 None ex_leaf2])].
+Definition ex_new : shards := [(2, [CV 0 0 5 2 None ex_leaf1]); (2, [CV 0 0 5 2 (Some [(0, 4)]) ex_leaf2])].
+Example ex_delta :
+  wfb ex_old = true /\ wfb ex_new = true /\
+  match content ex_old, content ex_new, delta_from (shards_delta ex_new ex_old) [] with
+  | Ok o, Ok n, Ok d => d = [[DSkip 5]; [DSkip 5]; map DCell (repeatz (Cell KN 4 0 [46]) 5); map DCell (repeatz (Cell KN 4 0 [46]) 5)]
+                        /\ apply_delta o d = n
+  | _, _, _ => False
+  end.
+Proof. vm_compute. repeat split; reflexivity. Qed.
